@@ -84,11 +84,8 @@ fn need_arrow_lhs(e: &Value) -> bool {
         || (kind(e) == "int" && e["v"].as_i64().unwrap() < 0)
         || (kind(e) == "float" && e["n"].as_i64().unwrap() < 0)
 }
-fn wrappable(e: &Value) -> bool {
-    !matches!(kind(e), "std" | "fn")
-}
-fn sugar_callee(f: &Value) -> bool {
-    matches!(kind(f), "var" | "std" | "fld")
+fn wrappable(_e: &Value) -> bool {
+    true
 }
 fn has_fn(e: &Value) -> bool {
     match kind(e) {
@@ -340,7 +337,7 @@ impl<'a> Renderer<'a> {
         items.join(&sep)
     }
 
-    fn fn_text(&mut self, e: &Value, p: &str) -> String {
+    fn fn_text(&mut self, e: &Value, p: &str, inb: bool) -> String {
         let kw = if b(e, "pure") { "pu" } else { "fn" };
         let mut ps = Vec::new();
         for prm in arr(e, "params") {
@@ -353,20 +350,40 @@ impl<'a> Renderer<'a> {
             }
         }
         let void = e["ret"]["k"] == "tvoid";
+        let has_do = void || Self::has_ty(&e["ret"]);
+        // f@: line breaks inside the signature (only where newlines are skipped): 1 after fn/pu, 2 after each parameter's comma, 4 before `do`
+        let bits = 1 | if ps.len() >= 2 { 2 } else { 0 } | if has_do { 4 } else { 0 };
+        let sig = if inb { self.layout_opt(format!("f@{}", p), bits, false, "fnsig") } else { self.void(format!("f@{}", p)); 0 };
+        let (smask, sseq) = self.decode(sig);
+        let ind2 = self.ind_at(self.depth + 2);
+        let ind1 = self.ind_at(self.depth + 1);
         let mut head = String::from(kw);
-        if !ps.is_empty() {
+        if smask & 1 != 0 {
+            head.push_str(&self.gap(&sseq, &ind2));
+        } else if !ps.is_empty() {
             head.push(' ');
-            head.push_str(&ps.join(", "));
         }
+        let sep = if smask & 2 != 0 { format!(",{}", self.gap(&sseq, &ind2)) } else { ", ".to_string() };
+        head.push_str(&ps.join(&sep));
+        if smask & 1 != 0 && ps.is_empty() {
+            // `fn <newline> -> ..`: the gap already separates
+        }
+        let before_do = if smask & 4 != 0 { self.gap(&sseq, &ind1) } else { " ".to_string() };
         let body = arr(e, "body");
         let tail_is_expr = body.last().map(|st| st["k"] == "expr").unwrap_or(false);
+        let lead = if smask & 1 != 0 && ps.is_empty() { "" } else { " " };
         if void {
-            head.push_str(" do");
+            head.push_str(&format!("{}do", before_do));
         } else if Self::has_ty(&e["ret"]) {
-            head.push_str(&format!(" -> {} do", self.ty_nested(&e["ret"])));
+            head.push_str(&format!("{}-> {}{}do", lead, self.ty_nested(&e["ret"]), before_do));
         } else {
-            head.push_str(" ->");
+            head.push_str(&format!("{}->", lead));
         }
+        // h@: trivia at the end of the signature line
+        let hv = self.layout_opt(format!("h@{}", p), 1, true, "fnhead");
+        let (_, hseq) = self.decode(hv);
+        let (heol, hlines) = self.trivia(&hseq, &ind1);
+        head.push_str(&heol);
         let use_ret = if !void && tail_is_expr {
             let v = self.opt(format!("t@{}", p), 2);
             self.count(format!("t={}", v));
@@ -376,23 +393,17 @@ impl<'a> Renderer<'a> {
             false
         };
         let text = self.block_lines(body, &format!("{}.s", p), use_ret);
-        format!("{}\n{}{}end", head, text, self.ind_at(self.depth))
+        format!("{}\n{}{}{}end", head, hlines, text, self.ind_at(self.depth))
     }
 
     fn call_text(&mut self, e: &Value, p: &str, inb: bool) -> String {
         let args = arr(e, "args");
         let n = args.len();
         let f = &e["f"];
-        let nopts: u64 = if !sugar_callee(f) {
-            1
-        } else if n == 0 || has_fn(f) {
-            2
-        } else {
-            4
-        };
+        let nopts: u64 = if n == 0 || (has_fn(f) && has_fn(&args[0])) { 2 } else { 4 };
         let c = self.opt(format!("c@{}", p), nopts);
         self.count(format!("c={}", c));
-        let callee = self.expr(f, &format!("{}.f", p), c == 0 && need_base(f), c != 0, inb);
+        let callee = self.expr(f, &format!("{}.f", p), need_base(f), false, inb);
         match c {
             0 => {
                 let brk = self.bracket_opt(p, n >= 1, "call");
@@ -508,7 +519,7 @@ impl<'a> Renderer<'a> {
                 text.push_str(&format!("{}end", self.ind_at(self.depth)));
                 text
             }
-            "fn" => self.fn_text(e, p),
+            "fn" => self.fn_text(e, p, inb),
             "call" => self.call_text(e, p, inb),
             "tuple" => {
                 let es = arr(e, "es");
